@@ -30,7 +30,7 @@ def qualify(name):
 
 
 def lit_value(spec, class_type=False):
-  """'int:1' | 'str:a' | 'bool:True' | 'enum:E.X' | 'pybool:True' -> payload of pytd.Literal."""
+  """'int:1' | 'str:a' | 'bool:True' | 'enum:E.X' | 'pybool:True' | 'type:A' -> payload of pytd.Literal."""
   pytd = _pytd()
   kind, _, val = spec.partition(":")
   mk = pytd.ClassType if class_type else pytd.NamedType
@@ -46,6 +46,8 @@ def lit_value(spec, class_type=False):
     return val == "True"
   if kind == "enum":
     return pytd.Constant(name=val, type=mk(val.rsplit(".", 1)[0]))
+  if kind == "type":          # a class as the value (Literal.value: ... | TypeU | Constant)
+    return mk(qualify(val))
   raise ValueError(spec)
 
 
